@@ -40,6 +40,7 @@ ScriptRecord ==
       rq == Tagged(req[r], tag[r], cause[r])
   IN [mode |-> "script", cfg |-> cfg, cl |-> rq.cl, steps |-> rq.steps, term |-> rq.term,
       npre |-> rq.npre, cause |-> rq.cause, runs |-> ran[r], exp |-> ExpJson(rq, cfg, full[r]),
+      sub |-> SubChains(rq, cfg, full[r]),
       \* handler end and deadline coincide: either outcome (DESIGN section 5); only used for in-time requests
       boundary |-> IF IsAny(rq, cfg, full[r]) THEN [any |-> TRUE, set |-> {}]
                    ELSE [any |-> FALSE, set |-> Expected(rq, cfg, full[r]) \cup TimeoutResp("deadline")]]
@@ -72,8 +73,8 @@ ConnsNext == Len(hist) < MaxOps /\ (Enter \/ \E r \in Rids : Release(r))
 ConnsRecord == [mode |-> "conns", cfg |-> cfg, ops |-> hist]
 
 \* ---------------------------------------------------------------- rpc mode
-RpcRecord == {[mode |-> "rpc", beh |-> s.beh, late |-> s.late, cause |-> s.cause, wait |-> s.wait,
-               exp |-> RpcExpected(s), at |-> RpcAnsweredAt(s)] : s \in RpcScenarios}
+RpcRecord == {[mode |-> "rpc", beh |-> s.beh, pv |-> s.pv, chain |-> s.chain, late |-> s.late, cause |-> s.cause,
+               wait |-> s.wait, exp |-> RpcExpected(s), at |-> RpcAnsweredAt(s)] : s \in RpcScenarios}
 
 GNext == CASE Mode = "script" -> ScriptNext
            [] Mode = "conns"  -> ConnsNext
@@ -84,6 +85,6 @@ GSpec == GInit /\ [][GNext]_gvars
 Emit ==
   CASE Mode = "script" -> (ScriptDone => PrintT(ToJson(ScriptRecord)))
     [] Mode = "conns"  -> (Len(hist) = MaxOps => PrintT(ToJson(ConnsRecord)))
-    [] Mode = "rpc"    -> PrintT(ToJson(RpcRecord))
+    [] Mode = "rpc"    -> RpcWellFormed /\ PrintT(ToJson(RpcRecord))
 
 =============================================================================
